@@ -412,5 +412,31 @@ def r14_5(ctx):
     return r
 
 
+def r14_6(ctx):
+    """the cut-set rules accept `protect_rtcp(..) == Ok` as 'this buffer is now SRTCP'. That is only true if protect_rtcp
+    cannot say Ok without having done the work: an SRTCP packet always carries the index word (E bit + 31-bit index) and
+    an authentication tag behind the payload, whatever the payload length - an 8-byte RTCP packet (empty receiver report,
+    BYE without reason) has nothing to ENCRYPT but everything to AUTHENTICATE. Decided: every Ok return of protect_rtcp
+    has passed an append of the index word to the packet, and the index was advanced."""
+    r = RuleResult("R14.6", "K4", "protect_rtcp says Ok only for a packet that carries its SRTCP index word and tag")
+    fn = "srtp::SrtpContext::protect_rtcp"
+    b = ctx.body(fn)
+    r.scope.append(fn)
+    appends = [bi for bi, t, p in b.calls() if p and p.endswith("::extend_from_slice") and len(t["a"]) > 1 and
+               b.term_operand(t["a"][0]) == ("arg", "packet") and mir.has_field(b.term_operand(t["a"][1]), "rtcp_index")]
+    r.need("index-word appends in protect_rtcp", len(appends), 2)
+    oks = core.ok_return_blocks(b)
+    r.need("Ok returns of protect_rtcp", len(oks), 1)
+    for ob in oks:
+        if core.must_pass(b, ob, appends):
+            r.ok({"return": b.where(ob), "after": "index word appended to the packet"})
+        else:
+            path = b.path_to([0], ob, cut_blocks=set(appends))
+            r.violate(fn, "ok:unprotected", b.where(ob),
+                      "protect_rtcp can return Ok without having appended the SRTCP index word (and tag): the callers put the untouched RTCP "
+                      "packet on the wire of an SRTP-mandatory transport", core.describe_path(b, path) if path else "")
+    return r
+
+
 def run(ctx):
-    return [r14_1(ctx), r14_2(ctx), r14_3(ctx), r14_4(ctx), r14_5(ctx)]
+    return [r14_1(ctx), r14_2(ctx), r14_3(ctx), r14_4(ctx), r14_5(ctx), r14_6(ctx)]
